@@ -267,7 +267,7 @@ struct Intent {
     std::set<std::pair<std::string, std::string>> cookies;
     std::string body;
     // response side
-    int code; std::vector<std::pair<std::string, std::string>> rheaders; std::set<std::pair<std::string, std::string>> rcookies; bool rcookieAttrs = false;
+    int code; std::vector<std::pair<std::string, std::string>> rheaders; std::set<std::pair<std::string, std::string>> rcookies; bool rcookieAttrs = false; long rcookieMaxAge = -1;
     int rkind; std::string rbody; std::vector<size_t> rchunks;
 };
 static std::mutex g_im;
@@ -292,7 +292,7 @@ struct EchoHandler : public Http::Handler {
             else if (h.first == "Access-Control-Allow-Origin") response.headers().add<AccessControlAllowOrigin>(h.second);
             else if (h.first == "Content-Type") response.headers().add<ContentType>(Http::Mime::MediaType::fromString(h.second));
         }
-        for (auto& c : in->rcookies) { Http::Cookie ck(c.first, c.second); if (in->rcookieAttrs) { ck.path = std::string("/p"); ck.secure = true; } response.cookies().add(ck); }
+        for (auto& c : in->rcookies) { Http::Cookie ck(c.first, c.second); if (in->rcookieAttrs) { ck.path = std::string("/p"); ck.secure = true; } if (in->rcookieMaxAge >= 0) ck.maxAge = (int)in->rcookieMaxAge; response.cookies().add(ck); }
         if (in->rkind == 0) response.send((Http::Code)in->code, in->rbody);
         else { auto st = response.stream((Http::Code)in->code); size_t pos = 0; for (size_t c : in->rchunks) { st.write(in->rbody.data() + pos, (std::streamsize)c); pos += c; if (c % 2) st << Http::flush; } st << Http::ends; }
     }
@@ -328,6 +328,10 @@ static void run_c02(long cases) {
         int rh = r.range(0, 3); std::set<std::string> ru; for (int k = 0; k < rh; k++) { std::string hn = r.pick(RN); if (!ru.insert(hn).second) continue; in.rheaders.push_back({hn, hn == "Content-Type" ? "application/json" : mg::tok(r, 1, 20, mg::TOKCH)}); }
         int rc = r.range(0, 3); for (int k = 0; k < rc; k++) in.rcookies.insert({mg::tok(r, 1, 6, mg::CKNAME), mg::tok(r, 1, 10, mg::CKVAL)});
         in.rcookieAttrs = r.chance(1, 3);
+        if (r.chance(1, 4)) { static const long MA[] = {0, 1, 3600, 2147483639L, 2147483640L, 2147483646L, 2147483647L}; in.rcookieMaxAge = r.chance(1, 4) ? (long)r.below(2147483648ull) : r.pick(MA); }
+        // now and then one header value (or a response cookie) is large, so that the head of the message crosses the 4096-byte reads of both sides
+        if (r.chance(1, 6)) { std::string big = mg::tok(r, 3000, 7000, "abcdefghijklmnopqrstuvwxyzABCDEFGHIJKLMNOPQRSTUVWXYZ0123456789-._~"); bool placed = false; for (auto& h : in.headers) if (!placed && (h.first == "Authorization" || h.first == "Location" || h.first == "Server")) { h.second = h.first == "Authorization" ? "Bearer " + big : big; placed = true; } if (!placed && !used.count("Authorization")) in.headers.insert(in.headers.begin() + (long)r.below(in.headers.size() + 1), {"Authorization", "Bearer " + big}); }
+        if (r.chance(1, 6)) { std::string big = mg::tok(r, 3000, 7000, "abcdefghijklmnopqrstuvwxyzABCDEFGHIJKLMNOPQRSTUVWXYZ0123456789"); if (r.chance(1, 2)) in.rcookies.insert({"big", big}); else { bool placed = false; for (auto& h : in.rheaders) if (!placed && h.first != "Content-Type") { h.second = big; placed = true; } if (!placed) in.rheaders.insert(in.rheaders.begin(), {"Server", big}); } }
         in.rkind = r.chance(1, 3) ? 1 : 0;
         if (in.rkind == 0) { int bl = r.chance(1, 5) ? 0 : r.range(1, 20000); in.rbody = mg::octets(r, bl, r.range(0, 3)); }
         else { int nchunks = r.range(0, 8); static const size_t SZ[] = {1, 15, 16, 255, 256, 4095, 4096, 65535, 65536}; for (int k = 0; k < nchunks; k++) { size_t c = r.chance(1, 2) ? r.pick(SZ) : (size_t)r.range(1, 3000); in.rchunks.push_back(c); in.rbody += mg::octets(r, (int)c, r.range(0, 3)); } }
@@ -355,7 +359,7 @@ static void run_c02(long cases) {
         if (!in.body.empty()) rb.body(in.body);
         std::atomic<int> done{0}; int gotCode = 0; std::string gotBody; std::map<std::string, std::string> gotTyped; std::set<std::string> gotCookies; bool rejected = false;
         rb.send().then([&](Http::Response resp) { gotCode = (int)resp.code(); gotBody = resp.body(); for (auto& h : resp.headers().list()) { std::ostringstream os; h->write(os); gotTyped[h->name()] = os.str(); }
-                           for (auto c = resp.cookies().begin(); c != resp.cookies().end(); ++c) { std::ostringstream os; os << *c; gotCookies.insert(os.str()); } done = 1; },
+                           for (auto c = resp.cookies().begin(); c != resp.cookies().end(); ++c) gotCookies.insert(c->name + "=" + c->value + "|path=" + (c->path ? *c->path : std::string("-")) + "|secure=" + (c->secure ? "1" : "0") + "|maxage=" + (c->maxAge ? std::to_string(*c->maxAge) : std::string("-")) + "|ext=" + std::to_string(c->ext.size())); done = 1; },
                        [&](std::exception_ptr) { rejected = true; done = 1; });
         bool fin = wait_for([&] { return done.load() == 1; }, 10.0 * lv::load_factor());
         g_evals++;
@@ -377,7 +381,7 @@ static void run_c02(long cases) {
             else if (gotBody != in.rbody) { key = std::string("c02:response:body:") + (in.rkind ? "stream" : "fixed"); detail = std::to_string(gotBody.size()) + " bytes received, " + std::to_string(in.rbody.size()) + " written"; }
             else {
                 for (auto& h : in.rheaders) { auto it = gotTyped.find(h.first); if (it == gotTyped.end()) { key = "c02:response:header-missing:" + h.first; break; } if (it->second != h.second) { key = "c02:response:header-value:" + h.first; detail = it->second; break; } }
-                std::set<std::string> want; for (auto& c : in.rcookies) want.insert(c.first + "=" + c.second + (in.rcookieAttrs ? "; Path=/p; Secure" : ""));
+                std::set<std::string> want; for (auto& c : in.rcookies) want.insert(c.first + "=" + c.second + "|path=" + (in.rcookieAttrs ? "/p" : "-") + "|secure=" + (in.rcookieAttrs ? "1" : "0") + "|maxage=" + (in.rcookieMaxAge >= 0 ? std::to_string(in.rcookieMaxAge) : std::string("-")) + "|ext=0");
                 if (key.empty() && gotCookies != want) { key = "c02:response:cookies"; detail = std::to_string(gotCookies.size()) + " received, " + std::to_string(want.size()) + " set"; }
             }
         }
